@@ -6,6 +6,7 @@ package main
 
 import (
 	"context"
+	"fmt"
 	"encoding/json"
 	"os"
 	"os/exec"
@@ -53,6 +54,11 @@ func tryReplay1(verif, repo, prop string, o *Obligation, all []*Obligation) repl
 	if i := strings.Index(fn, "."); i >= 0 {
 		pkg = fn[:i]
 	}
+	return runDriver(verif, repo, pkg, o.Func, false)
+}
+
+// runDriver runs the driver of one package against the tree at repo.
+func runDriver(verif, repo, pkg, focus string, deep bool) replayResult {
 	d, ok := replayDrivers[pkg]
 	if !ok {
 		return replayResult{Note: "no replay driver for package " + pkg + "; the solver output and model values are in failing_paths"}
@@ -70,14 +76,21 @@ func tryReplay1(verif, repo, prop string, o *Obligation, all []*Obligation) repl
 	b, _ := json.Marshal(ov)
 	ovf := filepath.Join(tmp, "overlay.json")
 	os.WriteFile(ovf, b, 0644)
-	ctx, cancel := context.WithTimeout(context.Background(), 150*time.Second)
+	limit := 120
+	if deep {
+		limit = 600
+	}
+	ctx, cancel := context.WithTimeout(context.Background(), time.Duration(limit+30)*time.Second)
 	defer cancel()
-	args := []string{"test", "-overlay", ovf, "-vet=off", "-count=1", "-timeout", "120s", "-run", "^" + d.run + "$", "./" + d.pkg}
+	args := []string{"test", "-overlay", ovf, "-vet=off", "-count=1", "-timeout", fmt.Sprintf("%ds", limit), "-run", "^" + d.run + "$", "./" + d.pkg}
 	cmd := exec.CommandContext(ctx, "go", args...)
 	cmd.Dir = repo
-	cmd.Env = append(os.Environ(), "GOFLAGS=-mod=mod", "GOPROXY=off", "VERIF_REPLAY_FOCUS="+o.Func)
+	cmd.Env = append(os.Environ(), "GOFLAGS=-mod=mod", "GOPROXY=off", "VERIF_REPLAY_FOCUS="+focus)
+	if deep {
+		cmd.Env = append(cmd.Env, "VERIF_REPLAY_DEEP=1")
+	}
 	out, err := cmd.CombinedOutput()
-	res := replayResult{Attempted: true, Driver: d.file, Command: "cd " + repo + " && VERIF_REPLAY_FOCUS='" + o.Func + "' go " + strings.Join(args, " ")}
+	res := replayResult{Attempted: true, Driver: d.file, Command: "cd " + repo + " && VERIF_REPLAY_FOCUS='" + focus + "' go " + strings.Join(args, " ")}
 	s := string(out)
 	if i := strings.Index(s, "REPLAY-COUNTEREXAMPLE"); i >= 0 {
 		res.Reproduced = true
